@@ -499,3 +499,110 @@ Proof.
   - exists m. auto.
   - rewrite (static_dynamic_agree E dt site argdefs defs args raw S R X) in N. discriminate.
 Qed.
+
+(** ** a converse: the second reason is always fatal.  A variable without a run-time value that
+    stands as an item of a list literal makes the coercion fail whatever the types are (graphql-js
+    coerces such an item to null; the library, and therefore the reference, do not). *)
+Section AbsentItem.
+  Variable fx : fixes.
+  Variable E : env.
+  Variable dt : bytes -> option bytes.
+  Variable vv : cvars.
+
+  Lemma res_map_ok_all {A} (f : A -> res gval) l cs x : res_map f l = Ok cs -> In x l -> exists c, f x = Ok c.
+  Proof.
+    revert cs. induction l as [|y r IH]; simpl; intros cs H []; subst.
+    - destruct (f x); try discriminate. eauto.
+    - destruct (f y); try discriminate. destruct (res_map f r) eqn:R; try discriminate. eapply IH; eauto.
+  Qed.
+
+  Lemma loop1_ok_all fields fs : forall result r1 k fv,
+    lit_fields_loop (coerce_literal fx E dt vv) vv fields fs result = Ok r1 -> In (k, fv) fs ->
+    absent_var vv fv = false ->
+    exists fd c, aget k fields = Some fd /\ coerce_literal fx E dt vv fv (in_type fd) true = Ok c.
+  Proof.
+    induction fs as [|[fname x] r IH]; intros result r1 k fv H Hin Ab; [contradiction|].
+    simpl in H. destruct (aget fname fields) as [fd|] eqn:G; [|discriminate].
+    destruct Hin as [Eq|Hin].
+    - inversion Eq; subst. unfold absent_var in Ab. rewrite Ab in H.
+      destruct (coerce_literal fx E dt vv fv (in_type fd) true) eqn:C; try discriminate. eauto.
+    - match type of H with (if ?c then _ else _) = _ => destruct c end.
+      + eapply IH; eauto.
+      + destruct (coerce_literal fx E dt vv x (in_type fd) true); try discriminate. eapply IH; eauto.
+  Qed.
+
+  Theorem absent_item_fatal : forall l v, In v (item_vars l) -> ahas v vv = false ->
+    forall t a g, coerce_literal fx E dt vv l t a <> Ok g.
+  Proof.
+    induction l as [n|z|m k|s|b| |n|vs IHl|fs IHf] using lit_ind'; intros v Hv Ab; simpl in Hv; try contradiction.
+    - (* a list literal *)
+      apply in_flat_map in Hv as (x & Hx & Hv).
+      intros t; induction t as [n|t' IHt|t' IHt]; intros a g H; rewrite cl_eq in H.
+      + destruct (aget n E) as [[k|vals|fields h]|]; try discriminate. destruct k; discriminate.
+      + destruct (res_map (fun v0 => coerce_literal fx E dt vv v0 t' false) vs) as [cs| |] eqn:R; try discriminate.
+        destruct (res_map_ok_all _ _ _ _ R Hx) as [c Hc].
+        destruct x; try (rewrite Forall_forall in IHl; eapply (IHl _ Hx); eauto; fail).
+        (* the item is the variable itself *)
+        destruct Hv as [<-|[]]. unfold ahas in Ab. destruct (aget n vv) eqn:G; [discriminate|].
+        revert Hc. clear -G. revert c. generalize false.
+        induction t' as [m|u IHu|u IHu]; intros a c H; rewrite cl_eq, G in H.
+        * destruct (aget m E) as [[k|vals|fields h]|]; try discriminate. destruct k; discriminate.
+        * destruct a; try discriminate. destruct (coerce_literal fx E dt vv (LVar n) u true) eqn:C; try discriminate.
+          eapply IHu; eauto.
+        * eapply IHu; eauto.
+      + eapply IHt; eauto.
+    - (* an object literal *)
+      apply in_flat_map in Hv as ([k fv] & Hx & Hv). simpl in Hv.
+      intros t; induction t as [n|t' IHt|t' IHt]; intros a g H; rewrite cl_eq in H.
+      + destruct (aget n E) as [[sk|vals|fields h]|]; try discriminate. { destruct sk; discriminate. }
+        destruct (lit_fields_loop (coerce_literal fx E dt vv) vv fields fs []) as [r1| |] eqn:L1; try discriminate.
+        assert (Nv : absent_var vv fv = false) by (destruct fv; try reflexivity; simpl in Hv; contradiction).
+        destruct (loop1_ok_all fields fs [] r1 k fv L1 Hx Nv) as (fd & c & _ & C).
+        rewrite Forall_forall in IHf. eapply (IHf _ Hx); eauto.
+      + destruct a; try discriminate.
+        destruct (coerce_literal fx E dt vv (LObject fs) t' true) eqn:C; try discriminate. eapply IHt; eauto.
+      + eapply IHt; eauto.
+  Qed.
+End AbsentItem.
+
+Lemma fold_ok_all {A B} (step : res A -> B -> res A)
+      (step_err : forall b, step Err b = Err) (step_panic : forall b, step Panic b = Panic) l : forall a0 a b,
+  fold_left step l (Ok a0) = Ok a -> In b l -> exists a1 a2, step (Ok a1) b = Ok a2.
+Proof.
+  induction l as [|x r IH]; simpl; intros a0 a b H []; subst.
+  - destruct (step (Ok a0) b) as [a1| |] eqn:S; [eauto| |].
+    + rewrite (fold_res_err _ step_err) in H; discriminate.
+    + rewrite (fold_res_panic _ step_panic) in H; discriminate.
+  - destruct (step (Ok a0) x) as [a1| |] eqn:S.
+    + eapply IH; eauto.
+    + rewrite (fold_res_err _ step_err) in H; discriminate.
+    + rewrite (fold_res_panic _ step_panic) in H; discriminate.
+Qed.
+
+Theorem absent_item_variable_is_error E dt site argdefs defs args vv :
+  static_ok all_fixed E dt site argdefs defs args = true ->
+  absent_item_variable vv args = true ->
+  forall m, coerce_argument_values all_fixed E dt argdefs args vv <> Ok m.
+Proof.
+  intros St Ab m H.
+  destruct (static_parts _ _ _ _ _ _ _ St) as (Da & _ & _ & _ & _).
+  unfold absent_item_variable in Ab. apply existsb_exists in Ab as ([aname l] & Hin & Ab).
+  apply existsb_exists in Ab as (v & Hv & Av). simpl in Hv. apply negb_true_iff in Av.
+  assert (Had : ahas aname argdefs = true).
+  { unfold static_ok in St. repeat (apply andb_true_iff in St as [St ?]).
+    rewrite forallb_forall in St. apply (St _ Hin). }
+  apply ahas_In in Had as [d Hd].
+  unfold coerce_argument_values in H.
+  set (av := fold_left (fun m (a : name * lit) => mset (fst a) (snd a) m) args []) in H.
+  assert (Av' : aget aname av = Some l).
+  { unfold av. rewrite aget_fold_mset_nodup by (rewrite dup_names_has_dup; exact Da).
+    rewrite (nodup_aget args aname l); [reflexivity|rewrite dup_names_has_dup; exact Da|exact Hin]. }
+  destruct (fold_ok_all _ (fun _ => eq_refl) (fun _ => eq_refl) _ _ _ _ H Hd) as (m1 & m2 & S).
+  cbn [arg_step] in S. cbv zeta in S. rewrite Av' in S.
+  assert (NV : forall n, l <> LVar n) by (intros n ->; simpl in Hv; contradiction).
+  pose proof (absent_item_fatal all_fixed E dt vv l v Hv Av (in_type d) true) as F.
+  destruct l; try (exfalso; eapply NV; reflexivity; fail); try (simpl in Hv; contradiction);
+    (cbn [negb] in S; rewrite andb_false_r in S; cbn iota in S;
+     match type of S with context [coerce_literal ?a ?b ?c ?v ?l ?t true] =>
+       destruct (coerce_literal a b c v l t true) eqn:C; try discriminate; eapply F; reflexivity end).
+Qed.
